@@ -408,6 +408,10 @@ def rule_P7(ctx) -> None:
     paths = Interp(parser, named_containers=True).run(fn)
     ctx.count(len(paths))
     OUT = _N("output_paths")
+    # the set of generated paths may be bound to an expression (a comprehension) instead of being filled in a loop
+    outs = {p_.locals.get("output_paths") for p_ in paths if p_.locals.get("output_paths") is not None}
+    if len(outs) == 1 and next(iter(outs)) != OUT:
+        OUT = next(iter(outs))
     name = "generate_code:init-files-disjoint"
 
     def mentions_init(t) -> bool:
@@ -420,7 +424,7 @@ def rule_P7(ctx) -> None:
     adds = []              # form B: (path, added value)
     for p in paths:
         for k, v in p.locals.items():
-            if isinstance(v, tuple) and v and v[0] in ("op", "call") and mentions_init(v) and any(x[0] == "call" and x[1][0] == "n" and x[1][1] in ("$setcomp", "$listcomp", "$genexp") for x in _walk(v)):
+            if isinstance(v, tuple) and v and v[0] in ("op", "call") and v != OUT and not any(x == v for x in _walk(OUT)) and mentions_init(v) and any(x[0] == "call" and x[1][0] == "n" and x[1][1] in ("$setcomp", "$listcomp", "$genexp") for x in _walk(v)):
                 set_terms.add(v)
         for e in p.events:
             if e.kind == "call" and e.data[1][0] == "a" and e.data[1][2] == "add" and e.data[1][1] != OUT and e.data[2] and mentions_init(e.data[2][0]) and e.loops:
@@ -448,7 +452,9 @@ def rule_P7(ctx) -> None:
         if not (guarded or later):
             disjoint = False
             why = f"{_show(v)} is added without testing it against output_paths"
-        if not any(l == _A(("elem", OUT), "parents") for l in e.loops):
+        walks_up = any(l == ("elem", OUT) or l == OUT for l in e.loops) and any(isinstance(l, tuple) and l and l[0] in ("while", "while!") for l in e.loops) and any(
+            x[0] == "a" and x[2] == "parent" for x in _walk(v))
+        if not any(l == _A(("elem", OUT), "parents") for l in e.loops) and not walks_up:
             parents_ok = False
     if disjoint and parents_ok:
         ctx.proved("P7", name, loc, "set expression" if set_terms else f"{len(adds)} guarded additions")
